@@ -111,7 +111,16 @@ class Gen:
         pool = [n for n in ALL_NAMES if key(n) not in used and (cats is None or CATEGORY[n] in cats)
                 and (self.digits or CATEGORY[n] != "digit")]
         out = []
-        for n in self.r.sample(pool, min(k, len(pool))):
+        # histories with stale state: a name the frame had earlier and lost (select of a subset, drop, rename, agg ...)
+        # comes back -- in another spelling -- as a join's right column, an alias, a withColumn / toDF / rename target
+        lost = [n for n in getattr(self, "lost", []) if key(n) not in used and cats is None]
+        while lost and len(out) < k and self.r.random() < 0.45:
+            n = lost.pop(self.r.randrange(len(lost)))
+            if key(n) not in used:
+                used.add(key(n))
+                v = variant(self.r, n)
+                out.append(v if v != n else (n.swapcase() if n.swapcase().lower() == n.lower() and py_lower_ok(n.swapcase()) else n))
+        for n in self.r.sample(pool, min(k - len(out), len(pool))):
             if key(n) not in used:
                 used.add(key(n))
                 out.append(n if self.r.random() < 0.5 else variant(self.r, n))
@@ -239,6 +248,7 @@ class Gen:
         n0 = self.fresh([], r.randint(1, 4))
         ns = list(n0)
         ops = []
+        self.lost = []
         right, jstate = set(), None
         for _ in range(r.randint(1, maxlen)):
             op = self.step(ns, ops[-1][0] if ops else None)
@@ -254,9 +264,13 @@ class Gen:
             else:
                 jstate, right = None, set()
             ops.append(op)
+            before = ns
             ns = py_spec_step(op, ns)
+            now = {key(x) for x in ns}
+            self.lost = [x for x in self.lost if key(x) not in now] + [x for x in before if key(x) not in now]
             if not ns or len({key(x) for x in ns}) != len(ns) and r.random() < 0.8:
                 break
+        self.lost = []
         return {"names": n0, "ops": ops}
 
 
@@ -517,6 +531,13 @@ CORPUS = [
     {"names": ["AB"], "ops": [("joinOn", ["kk", "other"], "ab", "KK"), ("select", [("str", "ab"), ("item", "OTHER")])]},
     {"names": ["AB", "c d"], "ops": [("groupAgg", [("item", "C D")], ["n"])]},
     {"names": ["AB", "Xy"], "ops": [("withColumn", "Nn", "ab"), ("groupAgg", [("item", "xy")], ["n"])]},
+    # stale entries of the display-name map: a column the frame lost comes back from elsewhere in another spelling
+    {"names": ["Status", "AB"], "ops": [("drop", ["status"]), ("join", ["ab", "STATUS"], ["ab"])]},
+    {"names": ["Status", "AB"], "ops": [("select", [("str", "ab")]), ("joinOn", ["kk", "STATUS"], "AB", "KK")]},
+    {"names": ["Status", "AB"], "ops": [("withColumnRenamed", "status", "Xy"), ("join", ["ab", "STATUS"], ["ab"]),
+                                         ("withColumn", "xY", "status")]},
+    {"names": ["Status", "AB"], "ops": [("select", [("col", "ab")]), ("withColumn", "STATUS", "ab"),
+                                         ("groupAgg", [("str", "Ab")], ["status"])]},
 ]
 
 
